@@ -27,6 +27,10 @@ def lib(name):
     return importlib.import_module('elftools.' + name if name else 'elftools')
 
 
+class StepBudgetExceeded(BaseException):
+    """the library executed more source lines than the step budget its harness set (termination / time checks)"""
+
+
 class AllocBudgetExceeded(BaseException):
     """the library asked for a sequence larger than the allocation limit its harness set"""
 
@@ -112,6 +116,33 @@ class CtxBase:
 
     def lib(self, name=''):
         return lib(name)
+
+    def steps_begin(self, limit):
+        """count the source lines executed inside the library from now on (both in the symbolic run and in the replay);
+        StepBudgetExceeded is raised in the library code once more than `limit` were executed"""
+        import sys
+        state = {'n': 0}
+        self._steps = state
+
+        def local(frame, event, arg):
+            if event == 'line':
+                state['n'] += 1
+                if state['n'] > limit:
+                    sys.settrace(None)
+                    raise StepBudgetExceeded(state['n'])
+            return local
+
+        def tracer(frame, event, arg):
+            if '/elftools/' not in frame.f_code.co_filename:
+                return None
+            return local
+        self._prev_trace = sys.gettrace()
+        sys.settrace(tracer)
+
+    def steps_end(self):
+        import sys
+        sys.settrace(getattr(self, '_prev_trace', None))
+        return getattr(self, '_steps', {'n': 0})['n']
 
     def track(self, stream):
         """remember a stream the library reads from, so that drain() can move it"""
